@@ -36,6 +36,9 @@ structure Site where
   text : String
   /-- inside `tokio::spawn(async ..)`: runs in the flow's own task -/
   inSpawn : Bool
+  /-- inside a future that the loop pushes into one of its own future sets (`FuturesUnordered` declared before the loop and
+      polled by a `select!` arm `X.next()`): runs next to the loop's work, not in its straight line -/
+  inPushedFuture : Bool
   /-- `await_`/`question`/`unwrap_`/`spawn`: the expression mentions data of the accepted connection / received datagram (or
       the outcome of an operation that a peer can make fail); jumps: a peer can bring the jump about (`cause` is none of
       `svcClosed`) -/
@@ -68,7 +71,7 @@ structure Loop where
 deriving Repr, DecidableEq
 
 /-- the sites that run in the loop's own task -/
-def Loop.level (l : Loop) : List Site := l.sites.filter (fun s => !s.inSpawn)
+def Loop.level (l : Loop) : List Site := l.sites.filter (fun s => !s.inSpawn && !s.inPushedFuture)
 
 /-! ## one iteration under an adversary -/
 
